@@ -391,3 +391,12 @@ Definition mstep (m : list (key * val)) (p : op) : list (key * val) :=
 Definition mrun (m : list (key * val)) (ps : list op) := fold_left mstep ps m.
 
 Definition d0 : dstate := ([], mkW [] [] 1 []).
+
+(* sop.NewStoreInfo: the effective slot length of a store created with StoreOptions.SlotLength = n (transcribed from
+   storeinfo.go: default 2000, odd lengths rounded down to even, minimum 2, maximum 20000). btree/node.go's split
+   (slotsHalf := SlotLength >> 1) is only item-preserving for an even length. Nothing else in this model depends on it. *)
+Definition slot_norm (n : Z) : Z :=
+  let a := if Z.leb n 0 then 2000%Z else n in
+  let b := if Z.odd a then (a - 1)%Z else a in
+  let c := if Z.ltb b 2 then 2%Z else b in
+  if Z.ltb 20000 c then 20000%Z else c.
